@@ -120,7 +120,7 @@ _EC = {"ES256": ice.fake_key("P-256", private=True), "ES384": ice.fake_key("P-38
 
 
 KEY_BY_ALG = {**_EC, "EdDSA": _KEYS["OKP"], **{n: _KEYS["RSA"] for n in ("RS256", "RS384", "RS512", "PS256", "PS384", "PS512")}}
-SIGLEN = {"ES384": 96, "ES512": 132}
+SIGLEN = {"ES384": 96, "ES512": 132, "HS256": 32, "HS384": 48, "HS512": 64}
 
 
 def key_for(name):
@@ -240,12 +240,12 @@ def jws_ops_witness(op: int, name: str, allow: Optional[List[str]], via_registry
         env.bind_b64(b"HDRSEG", b"HDRJSON")
         env.bind_json(b"HDRJSON", lambda: {"alg": name})
         env.bind_b64(b"PAYSEG", b"payload")
-        env.bind_b64(b"SIGSEG", bytes(64))
+        env.bind_b64(b"SIGSEG", bytes(SIGLEN.get(name, 64)))
         try:
             jws.deserialize_compact(b"HDRSEG.PAYSEG.SIGSEG", key_for(name), allow)
         except Exception:  # noqa
             return True
-    return not (name == "PS512")
+    return not (name == "HS384")
 
 
 def replay_state_leak():
